@@ -10,6 +10,7 @@ mod c10;
 mod core;
 mod c17;
 mod c20;
+mod c20_globals;
 mod c25;
 mod e2e;
 mod frontend;
